@@ -3,6 +3,7 @@
 use crate::{Ctx, Recorder};
 
 pub mod c25;
+pub mod c27;
 pub mod c29;
 pub mod c29_core;
 
@@ -10,6 +11,7 @@ pub fn dispatch(ctx: &Ctx) -> i32 {
     let mut rec = Recorder::new();
     let r = match ctx.id.as_str() {
         "C25" => c25::run(ctx, &mut rec),
+        "C27" => c27::run(ctx, &mut rec),
         "C29" => c29::run(ctx, &mut rec),
         other => {
             eprintln!("no workload for {other}");
